@@ -221,14 +221,24 @@ def run_rules(prop, tier='quick', overlay=None, repo=None):
   ctx = Ctx(prop, tier, overlay=overlay, repo=repo)
   ctx.robust = tuple(getattr(mod, 'ROBUST', ()))
   ctx.P.check_floors()
+
+  def mark_known():
+    # recorded genuine defects (known_findings.json) are not "violations found" for the purposes below: they neither excuse
+    # an analysis that gave up nor hide undecided instances
+    kn = load_known().get('known', [])
+    for o in ctx.obligations:
+      if o.status == 'violation' and any(known_match(e, o.key(prop)) for e in kn):
+        o.status = 'known'
   try:
     mod.run(ctx)
   except Exception as e:
+    mark_known()
     # an anchor that vanished *after* violations were already established does not mask them
     if any(o.status == 'violation' for o in ctx.obligations):
       ctx.note('analysis stopped early (%s); the violations found before that point are the verdict' % e)
     else:
       raise
+  mark_known()
   if ctx.reflective and not any(o.status == 'violation' for o in ctx.obligations):
     raise AnalysisError('reflective constructs in analysed code (trusted base broken): %s' % ctx.reflective[:5])
   # failed shape rules in restructured functions: no verdict (unless real violations were found elsewhere)
@@ -237,7 +247,7 @@ def run_rules(prop, tier='quick', overlay=None, repo=None):
     raise AnalysisError('cannot decide: %s; rule(s) %s no longer recognise the code (a shape rule that fails on a restructured function is not a violation)' % (
         '; '.join(sorted(set(o.undecided for o in und))), ', '.join(sorted(set(o.rule for o in und)))))
   # floors guard against a vacuous *pass*; when violations were found they are the verdict
-  if all(o.ok for o in ctx.obligations):
+  if all(o.ok or o.status == 'known' for o in ctx.obligations):
     for rule, n in getattr(mod, 'FLOORS', {}).items():
       ctx.floor(rule, n)
   return ctx
@@ -331,6 +341,8 @@ def main_check(prop, tier='quick', seed=0, jobs=None):
     for o in ctx.obligations:
       if o.ok or o.status == 'undecided':
         continue
+      if o.status == 'known':
+        o.status = 'violation'      # matched again below, where the KNOWN-FINDING line is produced
       k = o.key(prop)
       ent = next((e for e in known.get('known', []) if known_match(e, k)), None)
       if ent is not None:
